@@ -91,6 +91,10 @@ def _sample1(args):
 
 def run(prop_id, tier, seed, replay=None):
     rep = vlib.Report(prop_id, tier, seed)
+    replay_d = None
+    if replay:
+        with open(replay) as f:
+            replay_d = json.load(f)["detail"]
     wd = vlib.workdir(prop_id)
     catalog = eng_gfi.load_catalog(wd, rep)
     n = 4096 if tier == "quick" else 16384
@@ -99,8 +103,7 @@ def run(prop_id, tier, seed, replay=None):
         for ai in range(len(catalog[pid]["as"])):
             jobs.append((catalog, pid, ai, n, (seed * 1000003 + len(jobs) * 7919 + 17) % (2 ** 31)))
     if replay:
-        with open(replay) as f:
-            d = json.load(f)["detail"]
+        d = replay_d
         jobs = [(catalog, d["pid"], d["ai"], n, d["key"])]
     os.environ.setdefault("XLA_FLAGS", "--xla_cpu_multi_thread_eigen=false intra_op_parallelism_threads=1")
     import multiprocessing as mp
